@@ -15,7 +15,7 @@ func init() {
 }
 
 func genC01(c *Ctx, r *rng.R, i int) {
-	if i < 13 {
+	if i < 14 {
 		c01Corpus(c, i)
 		return
 	}
@@ -322,6 +322,25 @@ func c01Corpus(c *Ctx, i int) {
 			c01Pair(c, "OEq", []cty.Value{k, k}, []cty.Value{u, ku}, true)
 			c01Pair(c, "OEq", []cty.Value{k, k}, []cty.Value{ku, u}, true)
 			c01Pair(c, "ONe", []cty.Value{cty.TupleVal([]cty.Value{k}), cty.TupleVal([]cty.Value{k})}, []cty.Value{cty.TupleVal([]cty.Value{u}), cty.TupleVal([]cty.Value{ku})}, true)
+		}
+	case 13: // a member whose type constraint still has a placeholder inside, one case per kind of type
+		st := cty.StringVal
+		kinds := []struct{ known, unk cty.Value }{
+			{cty.ListVal([]cty.Value{st("x")}), cty.UnknownVal(cty.List(cty.DynamicPseudoType))},
+			{cty.SetVal([]cty.Value{st("x")}), cty.UnknownVal(cty.Set(cty.DynamicPseudoType))},
+			{cty.MapVal(map[string]cty.Value{"k": st("x")}), cty.UnknownVal(cty.Map(cty.DynamicPseudoType))},
+			{cty.TupleVal([]cty.Value{st("x"), cty.True}), cty.UnknownVal(cty.Tuple([]cty.Type{cty.DynamicPseudoType, cty.Bool}))},
+			{cty.ObjectVal(map[string]cty.Value{"a": st("x"), "b": cty.Zero}), cty.UnknownVal(cty.Object(map[string]cty.Type{"a": cty.String, "b": cty.DynamicPseudoType}))},
+			{cty.MapVal(map[string]cty.Value{"k": cty.ListVal([]cty.Value{cty.True})}), cty.UnknownVal(cty.Map(cty.List(cty.DynamicPseudoType)))},
+		}
+		for _, k := range kinds {
+			a := cty.TupleVal([]cty.Value{k.known, cty.Zero})
+			w := cty.TupleVal([]cty.Value{k.unk, cty.Zero})
+			c01Pair(c, "OEq", []cty.Value{a, a}, []cty.Value{w, a}, true)
+			c01Pair(c, "OEq", []cty.Value{a, a}, []cty.Value{a, w}, true)
+			o := cty.ObjectVal(map[string]cty.Value{"m": k.known})
+			ow := cty.ObjectVal(map[string]cty.Value{"m": k.unk})
+			c01Pair(c, "ONe", []cty.Value{o, o}, []cty.Value{o, ow}, true)
 		}
 	default: // object with one unknown and one unequal attribute (fixed: order independence)
 		x := cty.ObjectVal(map[string]cty.Value{"a": cty.StringVal("x"), "b": cty.NumberIntVal(1)})
